@@ -402,7 +402,6 @@ def run(ctx, only_cases=None):
     broken = None
     try:
         pinfo = vlib.coq_properties("C06")
-        vlib.coq_make(["Proofs/SideC06.vo"])
         vlib.proof_coverage(ctx, pinfo, "make -C coq Properties/C06.vo Proofs/SideC06.vo && coqc Properties/C06.v (Print Assumptions audit)",
                             extra_obligations=6)
     except vlib.Broken as b:
